@@ -333,10 +333,12 @@ def _model_loop(E, dt, steps, msteps, dtid, k, ctx, modtext, modname):
         if ok_full or ok_last or ok_repr:
             window = []
             continue
-        # echo of a REPL-mode value may complete the output
+        # "printed text then echoed value": satisfied in REPL mode only, and which
+        # mode a statement runs in is not what the documentation fixes (F6): silent
         if alt is not None and (same(''.join(window) + alt, wt) or same(alt, wt)):
-            window = []
-            continue
+            E.silent.add('verdict')
+            E.notes.append('want is text + echoed value: model silent')
+            break
         if full.rstrip('\n').endswith(wt.rstrip('\n')) or (alt is not None and (''.join(window) + alt).rstrip('\n').endswith(wt.rstrip('\n'))):
             # want equals a trailing portion of the output that is none of the
             # three documented forms: the property neither requires pass nor fail
